@@ -542,3 +542,26 @@ def _match_paren(s, i):
             depth -= 1
             if depth == 0: return j
     raise ValueError("unbalanced " + s)
+
+
+def split_qualified(c):
+    """`<SelfTy as Trait<..>>::method::<G>` -> (selfty, trait, method) using bracket depth, else None"""
+    if not c.startswith("<"): return None
+    depth, as_pos, close = 0, None, None
+    i, n = 0, len(c)
+    while i < n:
+        ch = c[i]
+        if ch in "<([": depth += 1
+        elif ch in ")]": depth -= 1
+        elif ch == ">" and c[i - 1] not in "-=":
+            depth -= 1
+            if depth == 0:
+                close = i; break
+        elif depth == 1 and c.startswith(" as ", i) and as_pos is None:
+            as_pos = i
+        i += 1
+    if close is None or as_pos is None: return None
+    rest = c[close + 1:]
+    mm = re.match(r"::(\w+)(::<.*>)?$", rest, re.S)
+    if not mm: return None
+    return c[1:as_pos].strip(), c[as_pos + 4:close].strip(), mm.group(1)
